@@ -105,7 +105,7 @@ class Report:
             'distinct_nontrivial': max(self.nontrivial, 0),
             'rule': self.rule,
             'samples': self.samples or ['(no sample recorded)'],
-            'explanation': self.explanation,
+            'explanation': self.explanation or (self.technique + ' -- ' + (self.rule or 'see DESIGN.md')),
             'exhaustive': True,
             'obligation_breakdown': {k: {'checked': v[0], 'discharged': v[1]} for k, v in self.obligations.items()},
             'analysed': self.analysed,
